@@ -123,7 +123,7 @@ def run(ctx):
                         ctx.violation("interp/cspline/extrap-%s" % extrap, "cspline(%s) x=%s q=%s extrap=%s gives %r but the interpolant at the mapped position %s is %r"
                                       % (bc, gp["x"], q, extrap, float(a[0]), fr(pred["pos"]), float(b[0])), {"g": gp, "q": str(q)})
                 except Exception as e:
-                    ctx.violation("interp/cspline/extrap-%s/raise" % extrap, "cspline(%s) x=%s q=%s extrap=%s raised %s: %s" % (bc, gp["x"], q, extrap, type(e).__name__, str(e)[:100]),
+                    ctx.violation("interp/cspline/not-a-knot/n=3" if (bc == "not-a-knot" and len(gp["x"]) == 3) else "interp/cspline/extrap-%s/raise" % extrap, "cspline(%s) x=%s q=%s extrap=%s raised %s: %s" % (bc, gp["x"], q, extrap, type(e).__name__, str(e)[:100]),
                                   {"g": gp, "q": str(q)})
     # ---- the cubic spline itself
     rng = np.random.RandomState(ctx.seed)
